@@ -96,8 +96,13 @@ class CommonSubexpressionEliminationPass(ir.passes.InPlacePass):
                         large_tensor = True
                         break
                     np_value = value.numpy()
-
-                    value = (np_value.shape, str(np_value.dtype), np_value.tobytes())
+                    if value.dtype == ir.DataType.STRING:
+                        # tobytes() of an object array is the addresses of the elements, which are
+                        # reused once the temporary array is freed: key on the strings themselves.
+                        data: object = tuple(value.string_data())
+                    else:
+                        data = np_value.tobytes()
+                    value = (np_value.shape, str(np_value.dtype), data)
                 # The attribute type is part of the key: INT 1 and FLOAT 1.0 are different attributes
                 attributes[k] = (v.type, value)
 
